@@ -217,3 +217,63 @@ func genCoChain() Gen {
 		}
 	}
 }
+
+// genCoOverflow — a coroutine that dies (or recovers) from an error raised while its value stack
+// is exhausted: unpack of 10 000 values (beyond Lua 5.1's C-stack limit of 8 000 and beyond
+// gopher-lua's default registry). The error must reach the resumer as (false, message) / a raised
+// error for wrap, the coroutine must be dead, and resumer, main thread and later coroutines work.
+func genCoOverflow() Gen {
+	co := func(f string, args ...Expr) Expr { return Call(Dot(Name("coroutine"), f), args...) }
+	bodies := []struct {
+		name string
+		mk   func() []Stat
+	}{
+		{"return-unpack", func() []Stat { return []Stat{Return(CallN("select", Str("#"), CallN("unpack", Name("big"))))} }},
+		{"local-unpack", func() []Stat {
+			return []Stat{Local1("n", CallN("select", Str("#"), CallN("unpack", Name("big")))), Return(Name("n"))}
+		}},
+		{"after-yield", func() []Stat {
+			return []Stat{Emit(Str("got"), co("yield", Str("first"))), Return(CallN("select", Str("#"), CallN("unpack", Name("big"))))}
+		}},
+		{"caught-inside", func() []Stat {
+			return []Stat{Emit(Str("inner"), Paren(CallN("pcall", Func(nil, false, Return(CallN("select", Str("#"), CallN("unpack", Name("big")))))))), Emit(Str("got"), co("yield", Str("still-alive"))), Return(Str("end"))}
+		}},
+		{"vararg-call", func() []Stat {
+			return []Stat{LocalFunc("va", Func(nil, true, Return(CallN("select", Str("#"), Vararg())))), Return(CallN("va", CallN("unpack", Name("big"))))}
+		}},
+	}
+	return func(yield func(*Prog)) {
+		for _, b := range bodies {
+			for _, how := range []string{"create", "wrap"} {
+				for _, nested := range []bool{false, true} {
+					b, how, nested := b, how, nested
+					yield(&Prog{Family: "F-cooverflow", Shape: fmt.Sprintf("%s/%s/nested=%v", b.name, how, nested), Mk: func() *Block {
+						st := []Stat{Local1("big", TableE()), NumFor("i", Num(1), Num(10000), nil, Assign1(Index(Name("big"), Name("i")), Name("i")))}
+						var drive []Stat
+						if how == "create" {
+							drive = append(drive, Local1("co", co("create", Func(nil, true, b.mk()...))))
+							for i := 1; i <= 3; i++ {
+								drive = append(drive, Emit(Str("resume"), Num(float64(i)), CallN("type", Paren(co("resume", Name("co"), Str("v")))), Paren(co("resume", Name("co"), Str("v")))),
+									Emit(Str("status"), co("status", Name("co")), co("running")))
+							}
+						} else {
+							drive = append(drive, Local1("w", co("wrap", Func(nil, true, b.mk()...))))
+							for i := 1; i <= 3; i++ {
+								drive = append(drive, Emit(Str("call"), Num(float64(i)), Paren(CallN("pcall", Name("w"), Str("v")))), Emit(Str("running"), co("running")))
+							}
+						}
+						// a fresh coroutine afterwards still works
+						drive = append(drive, Local1("co2", co("create", Func(names("a"), false, Return(Bin("+", Name("a"), Num(1)))))), Emit(Str("fresh"), co("resume", Name("co2"), Num(41))))
+						if nested {
+							st = append(st, Local1("outer", co("create", Func(nil, false, append(drive, Return(Str("outer-done")))...))),
+								Emit(Str("outer"), co("resume", Name("outer"))), Emit(Str("outer-status"), co("status", Name("outer")), co("running")))
+						} else {
+							st = append(st, drive...)
+						}
+						return Blk(st...)
+					}})
+				}
+			}
+		}
+	}
+}
